@@ -179,7 +179,8 @@ struct Acc {
     inputs: u64,
     rejected: u64,
     not_admitted: u64,
-    failures: Vec<Failure>,
+    /// failing cases aggregated by signature: smallest input as representative + count
+    failures: HashMap<String, Failure>,
     explained: u64,
     samples: Vec<(u64, Value)>,
     max_distinct_outputs: u32,
@@ -373,7 +374,7 @@ pub fn run(spec: &SweepSpec, subject: &dyn Subject, oracle: &dyn Oracle) -> Swee
                         }
                         let v = eval_one(spec, subject, oracle, text, &src, &mut acc, label, true);
                         for (f, cfg) in v.fails {
-                            acc.failures.push(Failure {
+                            add_failure(&mut acc.failures, Failure {
                                 property: property.into(),
                                 signature: format!("{}|{}|extra={}", property, f.clause, label),
                                 clause: f.clause,
@@ -382,6 +383,7 @@ pub fn run(spec: &SweepSpec, subject: &dyn Subject, oracle: &dyn Oracle) -> Swee
                                 detail: f.detail,
                                 derivation: format!("{}:{}", level.name, label),
                                 extra: Value::Null,
+                                count: 1,
                             });
                         }
                     }
@@ -432,7 +434,24 @@ pub fn run(spec: &SweepSpec, subject: &dyn Subject, oracle: &dyn Oracle) -> Swee
     );
     cov.extra.insert("threads".into(), json!(spec.threads));
     cov.extra.insert("wall_cap_s".into(), json!(spec.wall_cap.as_secs()));
-    SweepResult { coverage: cov, failures: acc.failures }
+    let mut failures: Vec<Failure> = acc.failures.into_values().collect();
+    failures.sort_by(|a, b| a.signature.cmp(&b.signature));
+    SweepResult { coverage: cov, failures }
+}
+
+fn add_failure(map: &mut HashMap<String, Failure>, f: Failure) {
+    match map.get_mut(&f.signature) {
+        None => {
+            map.insert(f.signature.clone(), f);
+        }
+        Some(rep) => {
+            let n = rep.count + f.count;
+            if (f.input.len(), &f.input) < (rep.input.len(), &rep.input) {
+                *rep = f;
+            }
+            rep.count = n;
+        }
+    }
 }
 
 fn merge(total: &mut Acc, acc: Acc, _k: usize) {
@@ -443,7 +462,9 @@ fn merge(total: &mut Acc, acc: Acc, _k: usize) {
     total.inputs += acc.inputs;
     total.rejected += acc.rejected;
     total.not_admitted += acc.not_admitted;
-    total.failures.extend(acc.failures);
+    for (_, f) in acc.failures {
+        add_failure(&mut total.failures, f);
+    }
     total.explained += acc.explained;
     total.samples.extend(acc.samples);
     total.samples.sort_by_key(|s| s.0);
@@ -548,7 +569,7 @@ fn skeleton_unit(
         let v = eval_one(spec, subject, oracle, &base, &src, acc, &desc, false);
         for (f, cfg) in v.fails {
             base_clauses.push(f.clause.clone());
-            acc.failures.push(Failure {
+            add_failure(&mut acc.failures, Failure {
                 property: property.into(),
                 signature: format!("{}|{}|spine={}", property, f.clause, desc),
                 clause: f.clause,
@@ -557,6 +578,7 @@ fn skeleton_unit(
                 detail: f.detail,
                 derivation: desc.clone(),
                 extra: Value::Null,
+                count: 1,
             });
         }
     } else {
@@ -599,7 +621,7 @@ fn skeleton_unit(
                     acc.explained += 1;
                     continue;
                 }
-                acc.failures.push(Failure {
+                add_failure(&mut acc.failures, Failure {
                     property: property.into(),
                     signature: format!("{}|{}|dev={}", property, fl.clause, sig),
                     clause: fl.clause,
@@ -608,6 +630,7 @@ fn skeleton_unit(
                     detail: fl.detail,
                     derivation: label.clone(),
                     extra: Value::Null,
+                    count: 1,
                 });
             }
             if !clauses.is_empty() {
@@ -651,7 +674,7 @@ fn skeleton_unit(
                             acc.explained += 1;
                             continue;
                         }
-                        acc.failures.push(Failure {
+                        add_failure(&mut acc.failures, Failure {
                             property: property.into(),
                             signature: format!("{}|{}|dev={}&dev={}", property, fl.clause, sa, sb),
                             clause: fl.clause,
@@ -660,6 +683,7 @@ fn skeleton_unit(
                             detail: fl.detail,
                             derivation: label.clone(),
                             extra: Value::Null,
+                            count: 1,
                         });
                     }
                 }
